@@ -1,7 +1,7 @@
 (* C06 correspondence evaluator.  For every harness case (precision factor, request block, what the real
    unmarshalWork.Unmarshal + AppendFieldToCol produced) find the configuration of the model with the fewest
    of today's deviations that reproduces the implementation's observables exactly.
-     code m        (0 <= m < 64)   : configuration m matches (bit 1 int53, 2 fsuffix, 4 batch, 8 plus, 16 strq, 32 negdot);
+     code m        (0 <= m < 128)   : configuration m matches (bit 1 int53, 2 fsuffix, 4 batch, 8 plus, 16 strq, 32 negdot, 64 tswrap);
                                      0 = the repaired parser
      code 100 + m                  : matches except for float fields written with an exponent part whose bits differ
      code 999                      : no configuration matches *)
@@ -16,11 +16,11 @@ Definition icase := (Z * bytes * option (list irow))%type.   (* None = block rej
 
 Definition cfg_of_mask (m : Z) : cfg :=
   {| c_int53 := Z.testbit m 0; c_fsuffix := Z.testbit m 1; c_batch := Z.testbit m 2;
-     c_plus := Z.testbit m 3; c_strq := Z.testbit m 4; c_negdot := Z.testbit m 5 |}.
+     c_plus := Z.testbit m 3; c_strq := Z.testbit m 4; c_negdot := Z.testbit m 5; c_tswrap := Z.testbit m 6 |}.
 
 (* masks ordered by number of deviations *)
 Definition masks : list Z :=
-  [0; 1; 2; 4; 8; 16; 32; 3; 5; 6; 9; 10; 12; 17; 18; 20; 24; 33; 34; 36; 40; 48; 7; 11; 13; 14; 19; 21; 22; 25; 26; 28; 35; 37; 38; 41; 42; 44; 49; 50; 52; 56; 15; 23; 27; 29; 30; 39; 43; 45; 46; 51; 53; 54; 57; 58; 60; 31; 47; 55; 59; 61; 62; 63].
+  [0; 1; 2; 4; 8; 16; 32; 64; 3; 5; 6; 9; 10; 12; 17; 18; 20; 24; 33; 34; 36; 40; 48; 65; 66; 68; 72; 80; 96; 7; 11; 13; 14; 19; 21; 22; 25; 26; 28; 35; 37; 38; 41; 42; 44; 49; 50; 52; 56; 67; 69; 70; 73; 74; 76; 81; 82; 84; 88; 97; 98; 100; 104; 112; 15; 23; 27; 29; 30; 39; 43; 45; 46; 51; 53; 54; 57; 58; 60; 71; 75; 77; 78; 83; 85; 86; 89; 90; 92; 99; 101; 102; 105; 106; 108; 113; 114; 116; 120; 31; 47; 55; 59; 61; 62; 79; 87; 91; 93; 94; 103; 107; 109; 110; 115; 117; 118; 121; 122; 124; 63; 95; 111; 119; 123; 125; 126; 127].
 
 Definition bits_one : Z := 1023 * 2 ^ 52.    (* 1.0 *)
 
